@@ -53,6 +53,12 @@ pub open spec fn keys_wf(s: WalletState) -> bool {
     &&& forall|k: (Identifier, u32)| #[trigger] s.tx_log.dom().contains(k) ==> log_key(s.tx_log[k]) == k
 }
 
+// the cached commitment of a record is either hex text or can be recomputed (definition; used as a precondition)
+pub open spec fn commit_cache_wf(o: OutputData) -> bool { (o.commit matches Some(c) ==> spec_is_hex(c)) && (o.commit is None ==> spec_commit_defined(o.value, o.key_id)) }
+// well-formed store (definition; a precondition of every refresh): records stored under their own keys, caches well formed
+pub open spec fn store_wf(s: WalletState) -> bool {
+    keys_wf(s) && forall|k: OutKey| #[trigger] s.outputs.dom().contains(k) ==> commit_cache_wf(s.outputs[k])
+}
 // spec_child_id(parent, n) (prelude/ext.rs) is injective in n for a fixed parent of depth < 4
 pub proof fn lemma_child_id_injective(p: Identifier, a: u32, b: u32)
     requires spec_path_depth(p) < 4
